@@ -122,6 +122,29 @@ def eff_noise(ctx) -> None:
             ok_rate = "sqrt(" in s and "eff_noise_rates" in show(ret[3][0][0]) and strip_typed(elt)[0] == "bin" and strip_typed(elt)[1] == "Mult"
             sq = [t for t in walk(elt) if t[0] == "call" and t[1] == "math.sqrt"]
             ok_rate = ok_rate and len(sq) == 1 and strip_typed(sq[0][2][0])[0] == "unpack"
+            # pairing: zip(noise_model.eff_noise_rates, <one tensor per entry of noise_model.eff_noise_opers, unfiltered>)
+            nm = ("param", f.qualname, "noise_model")
+            z = strip_typed(ret[3][0][0])
+            pair_ok = False
+            def _drops_only_zero_rates(ifs) -> bool:
+                for c in ifs:
+                    c = strip_typed(c)
+                    if not (c[0] == "cmp" and c[1] in (">", "!=") and strip_typed(c[2])[0] == "unpack" and strip_typed(c[2])[2] == 0
+                            and is_const(c[3], 0)):
+                        return False
+                return True
+            if len(ret[3]) == 1 and _drops_only_zero_rates(ret[3][0][1]) and z[0] == "call" and z[1] == "zip" and len(z[2]) == 2:
+                a, b = strip_typed(z[2][0]), strip_typed(z[2][1])
+                ops_1to1 = b == ("attr", nm, "eff_noise_opers") or (
+                    b[0] == "comp" and len(b[3]) == 1 and not b[3][0][1]
+                    and strip_typed(b[3][0][0]) == ("attr", nm, "eff_noise_opers"))
+                pair_ok = a == ("attr", nm, "eff_noise_rates") and ops_1to1
+            ctx.ob("BASIS-rate", "eff_noise pairing", f.loc(), pair_ok,
+                   "the k-th rate multiplies the k-th operator: zip(eff_noise_rates, one tensor per eff_noise_opers entry)"
+                   if pair_ok else
+                   f"eff_noise: rates and operators are paired as {show(z)[:160]} — the operator list is filtered, "
+                   f"reordered or not built one-to-one from eff_noise_opers, so rates are applied to the wrong operators "
+                   f"(e.g. rates (0.0, 0.3))", entry=f.qualname)
         ctx.ob("BASIS-rate", "eff_noise", f.loc(), ok_rate,
                "eff_noise: each operator is scaled by sqrt(its rate)" if ok_rate else
                f"eff_noise operators are built as {show(ret)[:100]}, not sqrt(rate)·op over zip(rates, operators)",
